@@ -36,7 +36,7 @@ class C10(Prop):
     def cases(self, rng: random.Random, tier: str) -> Iterable[dict]:
         while True:
             if rng.random() < 0.5:
-                c = gen.gen_map_node(rng)
+                c = gen.gen_map_node(rng, force=rng.choice([None, None, "raise-multi", "continue-fail"]))
                 yield {"kind": "node", "program": c["program"], "values": c["values"], "cfg": c.get("cfg", {}),
                        "runner": rng.choice(["sync", "async"]), "k": rng.choice([None, 1, 2, 3]), "seed": rng.randint(0, 10**6)}
             else:
